@@ -19,7 +19,7 @@ THEOREMS = ['C10_idempotent', 'C10_ascii_clean', 'C10_canonical', 'C10_idempoten
             'C10_upper_pe_idempotent', 'C10_upper_pe_escapes_upper',
             'C10_percent_encode_ascii_clean', 'C10_percent_encode_fixpoint',
             'C10_equiv_scheme_case_partial', 'C10_equiv_default_port_partial', 'C10_equiv_host_case_partial',
-            'C10_equiv_dot_segments_partial', 'C10_equiv_escape_case_partial']
+            'C10_equiv_dot_segments_partial', 'C10_equiv_escape_case_partial', 'C10_equiv_fragment_partial']
 TRUSTED = [
     'hand-written model Model/Url.v + Model/UrlLib.v of wpull/url.py, tied by the vm_compute correspondence of this run '
     '(error kind or all 14 attributes, .url, every accessor, parse_url_or_log) on generated URLs',
@@ -801,12 +801,13 @@ LEVEL_TEXT = ('Coq theorems over the executable model of wpull/url.py, for ALL i
               'the default, an absolute path without dot or empty segments and only upper-case escapes (C10_canonical); component laws for '
               'flatten_path, percent_encode and uppercase_percent_encoding; UTF-8 satisfies the encoder hypothesis (C10_utf8_encoder_ok). '
               'All closed under the global context. Of the clause "spellings that differ only in those respects normalize to the same '
-              'string" five classes are theorems (C10_equiv_*_partial): scheme letter case for the whole URL and arbitrary input text; an '
+              'string" six classes are theorems (C10_equiv_*_partial): scheme letter case for the whole URL and arbitrary input text; an '
               'explicit default port at the level of parse_network for arbitrary text; host letter case and inserted "/.", "//", "/x/.." '
               'segments at the level of the component normalizer; the letter case of the hex digits of escapes at the level of '
               'percent_encode + uppercase_percent_encoding for the path, query and fragment encode sets (every byte string, escapes as the '
-              'scanner delimits them). Dropped fragment and IPv4/IPv6 re-spelling are '
-              'NOT theorems: they are checked on the '
+              'scanner delimits them); a dropped fragment at the level of parse_network for arbitrary text (C10_equiv_fragment_partial). '
+              'IPv4/IPv6 re-spelling is '
+              'NOT a theorem: it is checked on the '
               'implementation for every generated URL (variants). The model is tied to the code on every run by evaluating it inside '
               'Coq against URLInfo.parse and all accessors.')
 LEVEL_NOTE = ('The model is a pure function of the string; that the implementation is one too although URLInfo.parse is memoised and its results are '
